@@ -15,8 +15,8 @@ EXTENDS Integers, Sequences, FiniteSets, TLC
 
 LogNClass == {"below", "min", "mid", "above"}       \* MinLogN-1, MinLogN, 10, MaxLogN+1
 Src       == {"list", "log", "both", "none"}
-QFault    == {"good", "composite", "nonntt", "dup", "shared", "bits61", "bits62", "bits63", "zero", "one", "two"}
-PFault    == {"good", "composite", "nonntt", "dup", "bits62", "bits63", "bits64"}
+QFault    == {"good", "composite", "nonntt", "halfntt", "dup", "shared", "bits61", "bits62", "bits63", "zero", "one", "two"}
+PFault    == {"good", "composite", "nonntt", "halfntt", "dup", "bits62", "bits63", "bits64"}
 LogFault  == {"good", "zero", "neg", "q61", "p62", "huge", "scarce"}
 RingT     == {"std", "ci", "bad"}
 Scheme    == {"rlwe", "bgv", "ckks"}
@@ -50,6 +50,8 @@ Rejecting(v) ==
   \/ v.pf \in {"composite", "nonntt", "dup", "bits64"}
   \/ v.lf \in {"zero", "neg", "q61", "p62", "huge", "scarce"}
   \/ v.rt = "bad"
+  \* a prime that is 1 modulo 2N only: friendly for the standard ring, not for the conjugate-invariant one (root order 4N)
+  \/ (v.rt = "ci" /\ (v.qf = "halfntt" \/ v.pf = "halfntt"))
   \/ (v.scheme = "bgv" /\ v.t \in {"zero", "dividesQ", "aboveQ0", "smallorder", "composite", "even"})
   \/ (v.scheme = "ckks" /\ v.s = "s129")
 
